@@ -186,6 +186,18 @@ def check(run: Run) -> None:
     from .c07 import check_patch_back
 
     check_patch_back(run, TermCtx(m, max_depth=2, opaque={"as_literal", "_find_keyword", "resolve_type_vars", "get_type_hints"}), m, mod, "C09.R6")
+    # callbacks in the lambdas of a sequence's operators fire only if the sequence is recognised and the lambda followed; a
+    # method only keeps its callbacks if its candidate survives, i.e. if a return type (Any when not annotated) is found
+    from .c08 import check_iterable_test, check_nested_lambda_followed
+    from ..lib import used_visitor as _uv9
+
+    check_iterable_test(run, m, "C09.R8")
+    _t9 = TermCtx(m, max_depth=1, opaque={"lookup_type", "remap_by_types"})
+    check_nested_lambda_followed(run, m, _uv9(m, _t9, m.find_func("remap_by_types", in_module=mod), True), "C09.R9")
+    run.rule("C09.R10", "a method without a return annotation still yields a candidate (return type Any): its callbacks fire and its rewrite is emitted (C08.R3 re-evaluated)")
+    from ..report import run_stage as _rs9
+
+    _rs9(run, "c08", only={"C08.R3"})
 
     # ---------------- R7: registration replaces an earlier registration of the same name (last one wins)
     run.rule("C09.R7", "register_func_adl_function stores _global_functions[name] = info (a later registration replaces an earlier one); nested lambdas are followed with their own parameter's type")
